@@ -421,9 +421,11 @@ def fam_get(tier):
               "x ~ x ~ (x ~ y ~ z)", "(\"-\" ~ x | \"-\"? ~ x ~ x | x ~ y ~ w)", "x ~ \"-\" ~ x ~ &(x ~ y ~ z) ~ ANY*", "x? ~ (\"-\" ~ x)? ~ (y ~ x ~ z)?",
               "x ~ x ~ x ~ (y | x ~ y ~ z ~ w)", "(x | y) ~ (x | y) ~ (w ~ x ~ y ~ z)?", "x* ~ \"-\" ~ x* ~ (y ~ z ~ x)*", "y ~ x ~ y ~ (x ~ y ~ z)", "(x ~ (x ~ (x ~ y ~ z)))",
               # iterations that consume nothing but pop: every one of them is a node of the Vec
-              "PUSH(e) ~ PUSH(e) ~ p*", "PUSH(e) ~ PUSH(e) ~ \"-\"? ~ (p ~ x?)+", "PUSH(e) ~ (PUSH(e) ~ p ~ p?)? ~ p*"]
+              "PUSH(e) ~ PUSH(e) ~ p*", "PUSH(e) ~ PUSH(e) ~ \"-\"? ~ (p ~ x?)+", "PUSH(e) ~ (PUSH(e) ~ p ~ p?)? ~ p*",
+              # a rule tried again at the same offset under another stack / another atomicity: the second try is a fresh one
+              "(PUSH(\"ab\") ~ q | PUSH(\"a\") ~ \"b\" ~ q) ~ ANY*", "(cxy | xy ~ \"-\") ~ ANY*", "(cxy ~ \"-\")? ~ xy ~ y?", "(cxy | xy ~ \"-\")* ~ ANY*", "(PUSH(\"ab\") ~ q ~ DROP | PUSH(\"a\") ~ \"b\" ~ q ~ DROP)* ~ ANY*"]
     hdr = "\n".join([rule("x", '"a"'), rule("y", '"b"'), rule("z", '"c"', "silent"), rule("w", '"d"', "atomic"), rule("v", 'x ~ y?', "silent"),
-                     rule("e", '"a"?'), rule("p", "POP")])
+                     rule("e", '"a"?'), rule("p", "POP"), rule("q", "PEEK"), rule("xy", '"a" ~ "b"'), rule("cxy", 'xy ~ "c"', "compound")])
     kinds = ["normal", "silent", "compound", "nonatomic", "normal"]
     out = []
     for ws in (False, True):
@@ -433,7 +435,7 @@ def fam_get(tier):
         if tier == "quick":
             rules = rules[(1 if ws else 0)::2]
         out += pack("gw" if ws else "gp", rules, 8, header=h, alphabet=cps("abcd- ") if ws else cps("abcd-"), maxlen=3 if tier == "quick" else 4,
-                    inputs=[cps(s) for s in ["abab", "aaaa", "a-a", "a-b-a", "-a-a-", "abaab", "a b a", "aa a", "a - a", "caca", "dad", "ababa"]])
+                    inputs=[cps(s) for s in ["abab", "aaaa", "a-a", "a-b-a", "-a-a-", "abaab", "a b a", "aa a", "a - a", "caca", "dad", "ababa", "aba", "a b-", "ab-", "abc", "a bb", "abc-ab", "abc a b-", "a b-abc", "abc a b- a b-", "ababab", "abaabab"]])
     return out
 
 
@@ -500,7 +502,9 @@ def fam_skipstack(tier):
     out = []
     bodies = ['"#" ~ PUSH("="*) ~ "[" ~ (!"]" ~ ANY)* ~ "]" ~ POP ~ "#"', '"#" ~ PUSH("=") ~ "!"', 'PUSH("#") ~ "-" ~ DROP', '"#" ~ (PUSH("=") ~ "x")? ~ "#"',
               'PUSH("#"+) ~ "=" ~ POP']
-    probes = ['"a" ~ "b" ~ PEEK_ALL ~ EOI', '"a" ~ "b"* ~ POP_ALL ~ "c"?', 'PUSH("a") ~ "b" ~ PEEK[0..1] ~ ANY*', '("a" ~ "b")* ~ DROP? ~ PEEK?  ~ EOI', 'PUSH("a") ~ "b" ~ DROP ~ DROP? ~ "c"']
+    probes = ['"a" ~ "b" ~ PEEK_ALL ~ EOI', '"a" ~ "b"* ~ POP_ALL ~ "c"?', 'PUSH("a") ~ "b" ~ PEEK[0..1] ~ ANY*', '("a" ~ "b")* ~ DROP? ~ PEEK?  ~ EOI', 'PUSH("a") ~ "b" ~ DROP ~ DROP? ~ "c"',
+              # a sequence of terminals only runs the implicit skip between them: abandoned, whatever the skip pushed goes too
+              '("a" ~ "c")? ~ "a" ~ "b" ~ PEEK_ALL ~ EOI', '("a" ~ "c" | ANY ~ "b") ~ POP_ALL ~ "c"?', '!("a" ~ "c") ~ &("a" ~ "b") ~ "a" ~ "b" ~ PEEK_ALL ~ EOI']
     gi = 0
     for which in ("COMMENT", "WHITESPACE", "both"):
         for bi, b in enumerate(bodies):
@@ -512,7 +516,7 @@ def fam_skipstack(tier):
             if which == "both":
                 lines.append(WS_SP)
             for k, p in enumerate(probes):
-                lines.append(rule("r%d" % k, p, ["normal", "nonatomic", "normal", "compound", "normal"][k]))
+                lines.append(rule("r%d" % k, p, ["normal", "nonatomic", "normal", "compound", "normal", "normal", "nonatomic", "normal"][k]))
             g = dict(id="ss%d" % gi, text="\n".join(lines), alphabet=cps("ab#=[]!-x "), maxlen=0, entries=["r%d" % k for k in range(len(probes))])
             ins = set()
             seps = ["#=[x]=#", "#=[x", "#=!", "#=", "#-", "#", "#=x#", "#=x", "##=#", "##=", "#[]#", "#==[a]==#", "#==[a]=#", " ", ""]
@@ -538,10 +542,13 @@ def fam_skipuntil(tier):
              # terminators that contain / repeat one another (none is redundant unless it has another as a *prefix*)
              rule("k8", '(!("ba" | "a") ~ ANY)* ~ ANY?', "atomic"), rule("k9", '(!("\\r\\n" | "\\n") ~ ANY)* ~ NEWLINE?', "atomic"),
              rule("k10", '(!("cab" | "b" | "ab" | "b") ~ ANY)*', "atomic"),
+             # different terminator lists with the same concatenation (each rule keeps its own list)
+             rule("k11", '(!("c" | "b") ~ ANY)*', "atomic"), rule("k12", '(!"cb" ~ ANY)* ~ "cb"?', "atomic"), rule("k13", '(!("a" | "bc") ~ ANY)* ~ ANY?', "atomic"),
+             rule("k14", '(!("ab" | "c") ~ ANY)* ~ ANY?', "atomic"),
              rule("n0", 'k0 ~ "b" ~ k2', "nonatomic"), rule("n1", "k3+")]
     g1 = dict(id="su0", text="\n".join(lines), alphabet=cps("abc\n"), maxlen=3 if tier == "quick" else 4,
               inputs=[cps(s) for s in ["a\nb\r\nc", "cab", "xxabc", "aaab", "/**/", "/*a*/", "/* é */", "/*é*/", "/*中*/", "é;", "éé;", "a中;", "中é;é", "'é'", "'中😀'", "ab中a", "é中é中a",
-                                        "😀😀;", "aé;", "/*😀*/x", "/*a*", "aaé;", "cba", "ccab", "x\r\n", "\rx\r\n", "c\r\n\n"]])
+                                        "😀😀;", "aé;", "/*😀*/x", "/*a*", "aaé;", "cba", "ccab", "x\r\n", "\rx\r\n", "c\r\n\n", "aacb", "abcb", "acab", "bbca"]])
     return [g1]
 
 
@@ -647,7 +654,13 @@ def fam_odd(tier):
                               'cnt = !{ item{2} ~ item+ }\nmain2 = ${ "x" ~ cnt? ~ ANY* }\nlead = { item* ~ "!" }',
               alphabet=cps("xa !"), maxlen=3 if tier == "quick" else 4,
               inputs=[cps(x) for x in ["x a b", "xa b", " a!", " a b !", "a b!", "x a b c", "xa b c", " a", "  !", "x  a", "x"]])
-    return [g, e1, e2, e3, e4]
+    # user rules named like Unicode built-ins keep the atomicity they inherit (they are ordinary rules)
+    e5 = dict(id="odd5", text='WHITESPACE = _{ " " }\nNUMBER = { ASCII_DIGIT+ ~ ("." ~ ASCII_DIGIT+)? }\nLETTER = _{ "a" ~ "b"* }\ntok = @{ NUMBER }\nctok = ${ LETTER ~ NUMBER? }\n'
+                              'ntok = { NUMBER ~ LETTER }\nthr = @{ mid ~ "!"? }\nmid = { NUMBER ~ LETTER? }\nSYMBOL = !{ "+" ~ "-"* }\nstok = @{ SYMBOL ~ NUMBER }\nASCII_DIGIT = { \'0\'..\'1\' }\nNEWLINE = _{ "." ~ "." }\nln = @{ (!NEWLINE ~ ANY)* ~ NEWLINE? }',
+              alphabet=cps("1.a +"), maxlen=3 if tier == "quick" else 4,
+              inputs=[cps(x) for x in ["1 . 5", "1.5", "1 .5", "a b 1", "ab1", "a b", "1 a b", "1.5 a", "1 . 5!", "1 a !", "+ - 1", "+-1", "+ -1 . 2", "1 1"]],
+              entries=["NUMBER", "tok", "ctok", "ntok", "thr", "mid", "stok", "ln", "ASCII_DIGIT"])
+    return [g, e1, e2, e3, e4, e5]
 
 
 def fam_memo(tier):
@@ -726,7 +739,15 @@ def fam_trig(tier):
            "a-.", "a-a", "aa-a", "aaa-a!", "aé-é", "a a-", "a-", "aa-", "aaa-!", "aa!", "a!", "!", "x", "ax", "abé", "ab"]
     g = dict(id="tg0", text="\n".join(lines), alphabet=cps("ab! x"), maxlen=2 if tier == "quick" else 3, inputs=[cps(x) for x in ins],
              entries=["t1", "t2", "t3", "t4", "t5", "t6", "t8", "t9", "t10", "t11", "t12", "t13", "t14", "t15"])
-    return [g]
+    # an implicit skip with a net stack effect: a sequence of terminals only still touches the stack through the skip it runs
+    # between them, so abandoning it (alternative, optional, predicate, iteration) must put the stack back
+    l2 = ['WHITESPACE = _{ PUSH(" ") }', 'w1 = { ("a" ~ "b" | ANY ~ "c") ~ DROP ~ !DROP }', 'w2 = { ("a" ~ "b")? ~ "a" ~ "c" ~ DROP ~ !DROP }',
+          'w3 = { !("a" ~ "b") ~ "a" ~ "c" ~ DROP ~ !DROP }', 'w4 = { &("a" ~ "c") ~ "a" ~ "c" ~ DROP ~ !DROP }', 'w5 = { ("a" ~ "b")* ~ "a" ~ "c" ~ POP_ALL }',
+          'w6 = ${ "a" ~ wn? ~ PEEK_ALL ~ "c" }', 'wn = !{ "a" ~ "b" }']
+    g2 = dict(id="tg1", text="\n".join(l2), alphabet=cps("abc "), maxlen=3 if tier == "quick" else 4,
+              inputs=[cps(x) for x in ["a c", "a b", "a  c", "a ba c", "a b a c ", "a b a c  ", "aa c c", "aa b c", "a c ", "a  c ", "ac", "a ca c"]],
+              entries=["w1", "w2", "w3", "w4", "w5", "w6"])
+    return [g, g2]
 
 
 def fam_rawkinds(tier):
